@@ -301,6 +301,9 @@ pub struct CliCase {
     pub after: usize,
     pub before: usize,
     pub count: bool,
+    /// --passthru instead of -A/-B: every line is printed, the non-matching ones as context
+    #[serde(default)]
+    pub passthru: bool,
 }
 
 pub fn gen_cli_case(t: &mut Tape) -> CliCase {
@@ -321,6 +324,7 @@ pub fn gen_cli_case(t: &mut Tape) -> CliCase {
         after: t.small(2),
         before: t.small(2),
         count: t.chance(1, 8),
+        passthru: t.chance(1, 6),
     }
 }
 
@@ -336,11 +340,15 @@ fn run_cli(case: &CliCase, dir: &TempDir, mode: BinMode) -> (String, crate::cli:
         Some(false) => rg = rg.arg("--no-mmap"),
         None => {}
     }
-    if case.after > 0 {
-        rg = rg.arg(format!("-A{}", case.after));
-    }
-    if case.before > 0 {
-        rg = rg.arg(format!("-B{}", case.before));
+    if case.passthru {
+        rg = rg.arg("--passthru");
+    } else {
+        if case.after > 0 {
+            rg = rg.arg(format!("-A{}", case.after));
+        }
+        if case.before > 0 {
+            rg = rg.arg(format!("-B{}", case.before));
+        }
     }
     if case.count {
         rg = rg.arg("-c");
@@ -449,6 +457,10 @@ pub fn check_cli(case: &CliCase) -> Verdict {
     }
     let implicit_quit = case.access == Access::Traversal && case.mode == BinMode::Default;
     let cut = p.records.len() < tp.records.len();
+    // with --passthru the non-matching lines are printed as context records (`path-N-`)
+    let is_match_record = |r: &Vec<u8>| [b"f:".as_slice(), b"./f:", b"<stdin>:"].iter().any(|pre| r.starts_with(pre));
+    let printed_match = p.records.iter().any(is_match_record);
+    let text_has_match = tp.records.iter().any(is_match_record);
     if implicit_quit {
         if p.notices > 0 {
             return Verdict::Fail(fail("'binary file matches' notice for a traversed file in default mode".into()));
@@ -461,7 +473,8 @@ pub fn check_cli(case: &CliCase) -> Verdict {
             return Verdict::Fail(fail("a memory-mapped traversed file with a NUL in its first 64 KiB must be dropped, but something was printed".into()));
         }
         if cut && !p.records.is_empty() && p.warnings == 0 {
-            return Verdict::Fail(fail("the output was cut off at binary data after lines had been printed, but no warning follows".into()));
+            let f = fail("the output was cut off at binary data after lines had been printed, but no warning follows".into());
+            return Verdict::Fail(if case.passthru && !printed_match { f.fact("passthru").fact("cut-off-without-warning-when-no-line-matched-before-the-nul") } else { f });
         }
         if p.records.is_empty() && p.warnings > 0 {
             return Verdict::Fail(fail("warning without any printed line".into()));
@@ -471,18 +484,25 @@ pub fn check_cli(case: &CliCase) -> Verdict {
             return Verdict::Fail(fail("'stopped searching' warning for an explicitly named file / --binary".into()));
         }
         // nothing at all only if no line matches
-        let any_match_text = !tp.records.is_empty();
+        let any_match_text = if case.passthru { text_has_match } else { !tp.records.is_empty() };
         if any_match_text && out.stdout.is_empty() {
             return Verdict::Fail(fail("lines of the file match, but neither a line nor a 'binary file matches' notice was printed".into()).fact("silent-although-matching"));
         }
-        if !any_match_text && !out.stdout.is_empty() {
+        if !any_match_text && (if case.passthru { printed_match || p.notices > 0 } else { !out.stdout.is_empty() }) {
             return Verdict::Fail(fail("no line matches under --text, yet something was printed".into()));
         }
-        if cut && p.notices == 0 && !p.records.is_empty() {
+        // (under --passthru the context lines in front of the binary data are printed without any match)
+        if cut && p.notices == 0 && (if case.passthru { printed_match } else { !p.records.is_empty() }) {
             return Verdict::Fail(fail("output was cut off at binary data without the 'binary file matches' notice".into()));
         }
     }
-    let want_status = if out.stdout.is_empty() { 1 } else { 0 };
+    let want_status = if case.passthru {
+        if printed_match || p.notices > 0 { 0 } else { 1 }
+    } else if out.stdout.is_empty() {
+        1
+    } else {
+        0
+    };
     if out.status != Some(want_status) {
         return Verdict::Fail(fail(format!("exit status {:?}, expected {want_status}", out.status)));
     }
@@ -495,7 +515,8 @@ pub fn check_cli(case: &CliCase) -> Verdict {
     info.class_if(p.warnings > 0, "stopped_searching_warning");
     info.class_if(nul >= 65536, "nul_beyond_first_64KiB");
     info.class_if((65533..=65539).contains(&nul), "nul_at_64KiB_boundary");
-    info.class_if(case.after + case.before > 0, "context");
+    info.class_if(case.after + case.before > 0 && !case.passthru, "context");
+    info.class_if(case.passthru, "passthru");
     info.class_if(!p.records.is_empty() && cut, "cut_after_lines_printed");
     Verdict::Pass(info)
 }
